@@ -1,10 +1,12 @@
 //! Ledger world: a single simulated node with many clients (DESIGN section 3.1).
 
 pub mod c07;
+pub mod c44;
 pub mod determinism;
 pub mod fees;
 pub mod monitors;
 pub mod node;
+pub mod programs;
 pub mod steps;
 
 use crate::simkit::*;
